@@ -38,6 +38,13 @@ pub fn apply_patch_memory(old_data: &[u8], patch_data: &[u8]) -> ZbsdiffResult<V
     let header = ZbsdiffHeader::read_options(&mut cursor, binrw::Endian::Little, ())?;
     header.validate()?;
 
+    // The two block sizes describe data that must follow the header
+    if (header.control_size as u64).saturating_add(header.diff_size as u64)
+        > (patch_data.len() as u64).saturating_sub(cursor.position())
+    {
+        return Err(std::io::Error::from(std::io::ErrorKind::UnexpectedEof).into());
+    }
+
     // Read compressed blocks based on header sizes
     let mut control_compressed = vec![0u8; header.control_size as usize];
     cursor.read_exact(&mut control_compressed)?;
@@ -71,7 +78,10 @@ fn apply_patch_with_data(
     extra_data: &[u8],
     expected_output_size: usize,
 ) -> ZbsdiffResult<Vec<u8>> {
-    let mut output = Vec::with_capacity(expected_output_size);
+    // Every output byte comes from the diff or the extra block, so their total
+    // bounds the useful capacity whatever size the header announces
+    let mut output =
+        Vec::with_capacity(expected_output_size.min(diff_data.len() + extra_data.len()));
     let mut diff_cursor = Cursor::new(diff_data);
     let mut extra_cursor = Cursor::new(extra_data);
     let mut old_pos = 0usize;
@@ -191,6 +201,13 @@ impl<R: Read + Seek> ZbsdiffPatcher<R> {
         let header = ZbsdiffHeader::read_options(&mut cursor, binrw::Endian::Little, ())?;
         header.validate()?;
 
+        // The two block sizes describe data that must follow the header
+        if (header.control_size as u64).saturating_add(header.diff_size as u64)
+            > (patch_data.len() as u64).saturating_sub(cursor.position())
+        {
+            return Err(std::io::Error::from(std::io::ErrorKind::UnexpectedEof).into());
+        }
+
         // Read compressed blocks
         let mut control_compressed = vec![0u8; header.control_size as usize];
         cursor.read_exact(&mut control_compressed)?;
@@ -216,7 +233,10 @@ impl<R: Read + Seek> ZbsdiffPatcher<R> {
         diff_data: &[u8],
         extra_data: &[u8],
     ) -> ZbsdiffResult<Vec<u8>> {
-        let mut output = Vec::with_capacity(self.output_capacity);
+        // Every output byte comes from the diff or the extra block, so their total
+        // bounds the useful capacity whatever size the caller announces
+        let mut output =
+            Vec::with_capacity(self.output_capacity.min(diff_data.len() + extra_data.len()));
         let mut diff_cursor = Cursor::new(diff_data);
         let mut extra_cursor = Cursor::new(extra_data);
         let mut old_pos = 0usize;
